@@ -230,7 +230,7 @@ pub fn property() -> Property {
             SubCheck::tape("dp_scanner", "DpScanner against a changing population", |t, obs| scan_case(t, obs, true)),
         ],
         plan: |tier| match tier {
-            Tier::Quick => vec![Step::Pbt { kind: "live_list", cases: 800, max_len: 160 }, Step::Pbt { kind: "dp_scanner", cases: 800, max_len: 160 }],
+            Tier::Quick => vec![Step::Pbt { kind: "live_list", cases: 3000, max_len: 160 }, Step::Pbt { kind: "dp_scanner", cases: 3000, max_len: 160 }],
             Tier::Thorough => vec![Step::Pbt { kind: "live_list", cases: 3000, max_len: 160 }, Step::Pbt { kind: "dp_scanner", cases: 3000, max_len: 160 }],
         },
         hang_is_violation: false,
